@@ -167,7 +167,11 @@ func (e *env) judge(c *cell, o observation) {
 		// No response is not this property's subject; record what the client
 		// got instead.
 		r.Bucket("cells:"+c.path.name+":no-response", 1)
-		r.Bucket("no_response:"+fam+":"+rel+":"+o.outcome, 1)
+		what := o.outcome
+		if fam == famDoQ && c.form.KA {
+			what = "no-response: keep-alive option in a DoQ query is a protocol error (RFC 9250); " + strings.TrimPrefix(what, "no-response: ")
+		}
+		r.Bucket("no_response:"+fam+":"+rel+":"+what, 1)
 		r.Eval(class+"|no-response", false)
 		if c.boundary != "" {
 			r.Bucket("boundary_cells_without_response", 1)
@@ -183,6 +187,11 @@ func (e *env) judge(c *cell, o observation) {
 		// unpads, which gives the server's DNS message exactly.
 		size = len(o.msg)
 		r.Bucket("dnscrypt_lengths_exact", 1)
+		if fam == famDCUDP {
+			e.mu.Lock()
+			e.dcEncOver = max(e.dcEncOver, o.wireLen-limit)
+			e.mu.Unlock()
+		}
 		if fam == famDCTCP && o.wireLen > streamMax {
 			e.violation(c, o, "oversize:"+fam+":encrypted-frame", "a DNSCrypt TCP frame above 65535 bytes", nil)
 		}
@@ -201,15 +210,10 @@ func (e *env) judge(c *cell, o observation) {
 
 		return
 	}
+	if !wireComplete(o.msg) {
+		e.violation(c, o, "malformed-response:"+fam, "the response is not a structurally complete DNS message that ends with the last record its header announces", nil)
 
-	if size > limit {
-		tc := "tc-unset"
-		if m.Truncated {
-			tc = "tc-set"
-		}
-		e.violation(c, o, "oversize:"+fam+":"+tc,
-			fmt.Sprintf("a response of %d bytes on the wire where the bound is %d (overshoot %d)", size, limit, size-limit),
-			map[string]any{"overshoot": size - limit, "handler_size": hsize, "full_size_without_padding": full})
+		return
 	}
 
 	// O1.
@@ -220,11 +224,19 @@ func (e *env) judge(c *cell, o observation) {
 		e.violation(c, o, "opt-outside-additional:"+fam, "an OPT record outside the additional section", nil)
 	}
 
-	own := fmt.Sprint("own-opt=", c.sh.OwnOPT)
+	// The OPT of the response is the handler's own one (adjusted by the
+	// server) or one the server built itself; error responses written by the
+	// server instead of the handler's are always of the second kind.
+	rcode := dns.RcodeToString[m.Rcode]
+	own := fmt.Sprint("handler-opt=", c.sh.OwnOPT)
+	serverBuilt := c.sh.OwnOPT == 0 || m.Rcode != dns.RcodeSuccess
+	if serverBuilt {
+		own = "server-built-opt"
+	}
 	if c.form.hasOPT() {
 		switch {
 		case len(opts) == 0:
-			e.violation(c, o, "opt-missing:"+fam+":"+own, "a query with an OPT record was answered without one", nil)
+			e.violation(c, o, "opt-missing:"+fam+":rcode="+rcode, "a query with an OPT record was answered without one", nil)
 		case len(opts) > 1:
 			e.violation(c, o, "opt-duplicated:"+fam+":"+own, "more than one OPT record in the response", nil)
 		default:
@@ -234,8 +246,7 @@ func (e *env) judge(c *cell, o observation) {
 			}
 			if got := int(op.UDPSize()); got != c.form.Adv {
 				key := "opt-udp-size:" + own
-				if c.sh.OwnOPT == 0 && got == 0 {
-					// The OPT built by the server itself.
+				if serverBuilt && got == 0 {
 					key = "opt-udp-size:server-built-opt-has-size-0"
 				}
 				e.violation(c, o, key,
@@ -261,6 +272,32 @@ func (e *env) judge(c *cell, o observation) {
 				ka = v
 			}
 		}
+	}
+
+	if size > limit {
+		cause := "tc-unset"
+		if m.Truncated {
+			cause = "tc-set"
+		}
+		padLen, kaLen := 0, 0
+		if pad != nil {
+			padLen = 4 + len(pad.Padding)
+		}
+		if ka != nil {
+			kaLen = 6
+		}
+		switch {
+		case padLen > 0 && size-padLen <= limit:
+			cause = "by-padding"
+		case kaLen > 0 && size-kaLen <= limit:
+			cause = "by-keepalive"
+		case padLen > 0 && kaLen > 0 && size-padLen-kaLen <= limit:
+			cause = "by-padding-and-keepalive"
+		}
+		e.violation(c, o, "oversize:"+fam+":"+cause,
+			fmt.Sprintf("a response of %d bytes on the wire where the bound is %d (overshoot %d)", size, limit, size-limit),
+			map[string]any{"overshoot": size - limit, "handler_size": hsize, "full_size_without_padding": full,
+				"padding_option_bytes": padLen, "keepalive_option_bytes": kaLen, "tc": m.Truncated})
 	}
 
 	switch {
@@ -349,4 +386,52 @@ func (e *env) judge(c *cell, o observation) {
 		s["tc"] = m.Truncated
 		r.Sample(s)
 	}
+}
+
+// wireComplete walks msg by its header counts without a DNS library and
+// reports whether it is structurally complete and ends exactly at len(msg).
+// (The DNS library accepts a message that stops after the header.)
+func wireComplete(msg []byte) (ok bool) {
+	if len(msg) < 12 {
+		return false
+	}
+
+	u16 := func(off int) int { return int(msg[off])<<8 | int(msg[off+1]) }
+	skipName := func(off int) (next int, nOK bool) {
+		for {
+			if off >= len(msg) {
+				return 0, false
+			}
+
+			l := int(msg[off])
+			switch {
+			case l == 0:
+				return off + 1, true
+			case l&0xc0 == 0xc0:
+				return off + 2, off+2 <= len(msg)
+			case l&0xc0 != 0:
+				return 0, false
+			default:
+				off += 1 + l
+			}
+		}
+	}
+
+	off := 12
+	var nOK bool
+	for i := 0; i < u16(4); i++ {
+		if off, nOK = skipName(off); !nOK {
+			return false
+		}
+		off += 4
+	}
+
+	for i := 0; i < u16(6)+u16(8)+u16(10); i++ {
+		if off, nOK = skipName(off); !nOK || off+10 > len(msg) {
+			return false
+		}
+		off += 10 + u16(off+8)
+	}
+
+	return off == len(msg)
 }
